@@ -192,6 +192,12 @@ func scriptCmd(args []string) error {
 				tr.emit(scriptEvent("gen-mix-trunc", s[:rng.Intn(len(s))]))
 			}
 		}
+		// every single opcode, alone and next to a multi-byte push (ASM names of all 256 byte values)
+		for op := 0; op < 256; op++ {
+			tr.emit(scriptEvent("allops", []byte{byte(op)}))
+			tr.emit(scriptEvent("allops", []byte{0x02, 0xab, 0xcd, byte(op)}))
+			tr.emit(scriptEvent("allops", []byte{byte(op), 0x03, 0x01, 0x02, 0x03, byte(op)}))
+		}
 		vs := loadVectorScripts(*repo)
 		rng.Shuffle(len(vs), func(i, j int) { vs[i], vs[j] = vs[j], vs[i] })
 		for i := 0; i < len(vs) && i < *n; i++ {
